@@ -23,7 +23,9 @@ fn mk(bs: u32, len: usize, atom: u8, ch: u8, bps: u8) -> Case {
             tail,
             atoms: [atom, atom, atom, atom],
             rel: 0,
-            delivery: (len % 3) as u8,
+            // MemSource with hint, integer source without, byte source without, integer sources whose
+            // hint is the length rounded up / down to whole blocks
+            delivery: (len % 5) as u8,
             seed: 0,
         },
         // every other length with a configured block size that differs from the argument
@@ -189,8 +191,14 @@ pub fn run(args: &Args, rep: &Arc<Report>) {
         cases.push(mk(32, nf * 32 + 5, 1, 1, 16));
         cases.push(mk(32, nf * 32, 3, 2, 8));
     }
+    // frames of 64 KiB and more (the frame-size fields hold 24 bits)
+    for &(bs, ch, bps, len) in &[(16384u32, 2u8, 16u8, 16384usize * 2 + 9), (4096, 8, 24, 4096 * 2 + 100), (32767, 2, 24, 32767 + 5), (32767, 8, 24, 32767)] {
+        let mut c = mk(bs, len, 22, ch, bps);
+        c.input.atoms = [22, 0, 22, 22];
+        cases.push(c);
+    }
     rep.set_rule(
-        "streams of 129 / 1300 / 2049 / 4100 (thorough: up to 70000) constant frames of 32 samples (frame-number length boundaries); complete over input length: bs in {32,33,64,65,192,255,256,257} x every length 0..=3*bs x content{silence,1-LSB noise,full-scale noise} x ch{1,2} x bps{8,16,24}; bs 576: every residue x F{0,1}; bs 4096: every residue (thorough: F{0,1}, noisy content); bs 32767: residues with constant content (thorough: all). Each case encoded ST, MT and frame-level. Non-trivial = stream ends in a short final block.",
+        "frames of 64 KiB to 786 KiB (full-scale noise; 16384 x 2 x 16, 4096 x 8 x 24, 32767 x 2 x 24, 32767 x 8 x 24); deliveries: MemSource, integer / byte source without a length hint, integer sources with a hint rounded up / down to whole blocks; streams of 129 / 1300 / 2049 / 4100 (thorough: up to 70000) constant frames of 32 samples (frame-number length boundaries); complete over input length: bs in {32,33,64,65,192,255,256,257} x every length 0..=3*bs x content{silence,1-LSB noise,full-scale noise} x ch{1,2} x bps{8,16,24}; bs 576: every residue x F{0,1}; bs 4096: every residue (thorough: F{0,1}, noisy content); bs 32767: residues with constant content (thorough: all). Each case encoded ST, MT and frame-level. Non-trivial = stream ends in a short final block.",
     );
     let n = cases.len();
     let chunk = 32;
